@@ -111,13 +111,14 @@ def render(spec, style, name):
     L = ["from enum import Enum, IntEnum", "from statemachine import Event, State, StateMachine", "from statemachine.states import States", ""]
     P = ""  # prefix of state names inside the class body
     body = []
-    if style in ("enum", "intenum"):
-        base = "Enum" if style == "enum" else "IntEnum"
+    if style in ("enum", "intenum", "enum_finalset"):
+        base = "IntEnum" if style == "intenum" else "Enum"
         order = spec.get("order", ids)
         vals = {s: (len(ids) - 1 - k if style == "intenum" else k + 1) for k, s in enumerate(order)}
         L += [f"class E_{name}({base}):"] + [f"    {s} = {vals[s]}" for s in order] + [""]
         # a single member for Enum, a frozenset of members for IntEnum: `final` takes one state or any iterable of states
-        fin = "" if not spec["final"] else (f", final=E_{name}.{spec['final']}" if style == "enum" else f", final=frozenset({{E_{name}.{spec['final']}}})")
+        # `final` takes one member (for IntEnum that member may be 0, i.e. falsy) or any iterable of members (a frozenset)
+        fin = "" if not spec["final"] else (f", final=frozenset({{E_{name}.{spec['final']}}})" if style == "enum_finalset" else f", final=E_{name}.{spec['final']}")
         body.append(f"    _ = States.from_enum(E_{name}, initial=E_{name}.{ids[0]}{fin})")
         P = "_."
     elif style == "states_dict":
@@ -211,7 +212,7 @@ def render(spec, style, name):
 
 
 STYLES = ["plain", "from_", "from_multi", "event_str", "event_list", "event_list_overlap", "states_first", "events_first", "mixed", "mixed_inline", "decorator", "state_params", "itself",
-          "enum", "intenum", "states_dict", "subclass", "subclass_mixin", "any"]
+          "enum", "intenum", "enum_finalset", "states_dict", "subclass", "subclass_mixin", "any"]
 
 
 def observe(cls, seqs):
